@@ -1,8 +1,145 @@
-import ErdosVerif.Driver.Util
-namespace ErdosVerif.Driver.Graph
-open Lean ErdosVerif.Driver
+/-
+Driver for suite "graph" (property C17): runs the M3 model (`Model/Graph.lean`).
 
-/-- Suite handler: one JSON case in, one JSON reply out (stub until the suite is built). -/
-def handle (_j : Json) : Json := Json.mkObj [("protocol_error", Json.str "suite-not-built")]
+A case is `{"suite":"graph","ops":[op, …]}`; the ops are applied in order to one
+graph that starts empty and the reply is `{"res":[r, …]}` with one entry per op.
+
+Mutating ops (reply `null` or `{"err":cls}`):
+  {"op":"init","map":[[n,[c,…]],…]}      Graph(nodes=mapping) (replaces the state)
+  {"op":"add_node","n":n,"cs":[c,…]}
+  {"op":"add_child","n":n,"c":c}
+  {"op":"remove","n":n}
+Observing ops:
+  {"op":"snapshot"}  → {"children":[[n,[c…]]…] (dict order), "parents":[[n,[p…]]…] (non-empty, sorted by key)}
+  {"op":"query","ns":[n…],"pairs":[[a,b]…],"ws":[[[n,w]…]…],"falsy":[n…]}
+      → every public observation: see `query` below
+  {"op":"jobcost","rt":[[n,r]…],"live":[n…],"cost":[[n,c]…]} → int | {"err":cls}
+-/
+import ErdosVerif.Driver.Util
+import ErdosVerif.Model.Graph
+namespace ErdosVerif.Driver.Graph
+open Lean ErdosVerif.Driver ErdosVerif.Model
+
+def jE {α} (f : α → Json) : Except String α → Json
+  | .ok a => f a
+  | .error e => errJ e
+
+def jNats (l : List Nat) : Json := jList jNat l
+def jBool (b : Bool) : Json := Json.bool b
+
+/-- Result of a generator: yielded prefix and the exception ending it. -/
+def jGen (r : List Nat × Option String) : Json :=
+  Json.mkObj [("y", jNats r.1), ("err", match r.2 with | none => Json.null | some e => Json.str e)]
+
+def jAdj (d : Dict (List Nat)) : Json :=
+  jList (fun p : Nat × List Nat => Json.arr #[jNat p.1, jNats p.2]) d
+
+def insertSorted (p : Nat × List Nat) : List (Nat × List Nat) → List (Nat × List Nat)
+  | [] => [p]
+  | q :: r => if p.1 ≤ q.1 then p :: q :: r else q :: insertSorted p r
+
+def snapshot (g : Graph) : Json :=
+  let ps := (g.parents.filter (fun p => !p.2.isEmpty)).foldl (fun acc p => insertSorted p acc) []
+  Json.mkObj [("children", jAdj g.children), ("parents", jAdj ps)]
+
+def natList (j : Json) : Except String (List Nat) := do
+  mapM' (fun x => x.getNat?) (← j.getArr?).toList
+
+def pairNatList (j : Json) : Except String (Nat × List Nat) := do
+  let a ← j.getArr?
+  match a.toList with
+  | [n, cs] => return (← n.getNat?, ← natList cs)
+  | _ => throw "pair expected"
+
+def pairNatInt (j : Json) : Except String (Nat × Int) := do
+  let a ← j.getArr?
+  match a.toList with
+  | [n, w] => return (← n.getNat?, ← w.getInt?)
+  | _ => throw "pair expected"
+
+def pairNatNat (j : Json) : Except String (Nat × Nat) := do
+  let a ← j.getArr?
+  match a.toList with
+  | [n, w] => return (← n.getNat?, ← w.getNat?)
+  | _ => throw "pair expected"
+
+def table (t : List (Nat × Int)) (n : Nat) : Int := (List.lookup n t).getD 0
+
+def optArr (j : Json) (k : String) : Except String (List Json) :=
+  match fldOpt j k with
+  | none => .ok []
+  | some v => do return (← v.getArr?).toList
+
+def jDepth : Except String (Option Nat) → Json := jE jOptNat
+
+def query (g : Graph) (j : Json) : Except String Json := do
+  let ns ← mapM' (fun x => x.getNat?) (← optArr j "ns")
+  let pairs ← mapM' pairNatNat (← optArr j "pairs")
+  let ws ← mapM' (fun t => do mapM' pairNatInt (← t.getArr?).toList) (← optArr j "ws")
+  let falsy ← mapM' (fun x => x.getNat?) (← optArr j "falsy")
+  let per := ns.map fun n => Json.mkObj [
+    ("n", jNat n),
+    ("children", jE jNats (g.getChildren n)),
+    ("parents", jE jNats (g.getParents n)),
+    ("is_source", jE jBool (g.isSource n)),
+    ("dmax", jDepth (g.getNodeDepth n false)),
+    ("dmin", jDepth (g.getNodeDepth n true)),
+    ("bfs", jGen (g.breadthFirst (some n) (!falsy.contains n))),
+    ("dfs", jGen (g.depthFirst (some n)))]
+  let dep := pairs.map fun p => jE jBool (g.areDependent p.1 p.2)
+  let lw := ws.map fun t => Json.mkObj [
+    ("path", jE jNats (g.getLongestPath (table t))),
+    ("cpr", jE jInt (g.criticalPathRuntime (table t)))]
+  return Json.mkObj [
+    ("nodes", jNats g.getNodes),
+    ("len", jNat g.size),
+    ("edges", jList (fun e : Nat × Nat => Json.arr #[jNat e.1, jNat e.2]) g.getEdges),
+    ("sources", jNats g.getSources),
+    ("sinks", jNats g.getSinks),
+    ("topo", jE jNats g.topologicalSort),
+    ("bfs", jGen (g.breadthFirst none)),
+    ("dfs", jGen (g.depthFirst none)),
+    ("longest", jE jNats g.getLongestPathDefault),
+    ("per", Json.arr per.toArray),
+    ("dep", Json.arr dep.toArray),
+    ("lw", Json.arr lw.toArray)]
+
+def jobcost (g : Graph) (j : Json) : Except String Json := do
+  let rt ← mapM' pairNatInt (← fldArr j "rt")
+  let live ← mapM' (fun x => x.getNat?) (← fldArr j "live")
+  let cost ← mapM' pairNatInt (← fldArr j "cost")
+  return jE jInt (g.jobPathCost (table rt) (fun n => live.contains n) (table cost))
+
+def step (g : Graph) (j : Json) : Except String (Graph × Json) := do
+  let op ← fldStr j "op"
+  match op with
+  | "init" =>
+    let m ← mapM' pairNatList (← fldArr j "map")
+    return (Graph.ofMapping m, Json.null)
+  | "add_node" =>
+    return (g.addNode (← fldNat j "n") (← natList (← fld j "cs")), Json.null)
+  | "add_child" =>
+    match g.addChild (← fldNat j "n") (← fldNat j "c") with
+    | .ok g' => return (g', Json.null)
+    | .error e => return (g, errJ e)
+  | "remove" =>
+    let (g', e) := g.remove (← fldNat j "n")
+    return (g', match e with | none => Json.null | some e => errJ e)
+  | "snapshot" => return (g, snapshot g)
+  | "query" => return (g, ← query g j)
+  | "jobcost" => return (g, ← jobcost g j)
+  | s => throw s!"unknown op {s}"
+
+def runOps : List Json → Graph → List Json → Except String (List Json)
+  | [], _, acc => .ok acc.reverse
+  | j :: js, g, acc => do
+    let (g', r) ← step g j
+    runOps js g' (r :: acc)
+
+/-- Suite handler: one JSON case in, one JSON reply out. -/
+def handle (j : Json) : Json := guardE do
+  let ops ← fldArr j "ops"
+  let res ← runOps ops Graph.empty []
+  return Json.mkObj [("res", Json.arr res.toArray)]
 
 end ErdosVerif.Driver.Graph
